@@ -79,6 +79,11 @@ impl Report {
             self.violations.push(Violation { key: key.into(), what, witness });
         }
     }
+    /// a hang leaves a spinning thread behind: report what we have and leave the process at once
+    pub fn finish_and_exit(&self) -> ! {
+        println!("{}", self.to_json());
+        std::process::exit(0);
+    }
     pub fn to_json(&self) -> String {
         let v: Vec<String> = self.violations.iter().map(|v| format!("{{\"key\":{},\"what\":{},\"witness\":{}}}", jstr(&v.key), jstr(&v.what), jstr(&v.witness))).collect();
         let s: Vec<String> = self.samples.iter().map(|x| jstr(x)).collect();
